@@ -9,6 +9,7 @@ import (
 	metav1 "k8s.io/apimachinery/pkg/apis/meta/v1"
 
 	datadoghqv1alpha1 "github.com/DataDog/extendeddaemonset/api/v1alpha1"
+	"github.com/DataDog/extendeddaemonset/zzverif/fakeapi"
 	"github.com/DataDog/extendeddaemonset/zzverif/nondet"
 )
 
@@ -162,4 +163,106 @@ func ZZ_C05_selectCurrent() {
 	nondet.Reach("C05.held-back-paused", nondet.And(!promoted, paused, elapsed, quiet, active != nil && active != upToDate))
 	nondet.Reach("C05.held-back-restarts", nondet.And(!promoted, !quiet, elapsed, !paused, active != nil && active != upToDate))
 	nondet.Reach("C05.manual-not-promoted", nondet.And(!promoted, mode == "manual", active != nil && active != upToDate))
+}
+
+// ZZ_C05_reconcile: the rule of C05 on status.activeReplicaSet before / after a whole
+// ExtendedDaemonSet Reconcile (wall clock read by the reconcile itself, whole-second ages),
+// including the wake-up returned to the work queue.
+func ZZ_C05_reconcile() {
+	mode := nondet.String("mode", "none", "auto", "manual")
+	var canary *datadoghqv1alpha1.ExtendedDaemonSetSpecStrategyCanary
+	durationSec, noRestartsSec := 0, 0
+	switch mode {
+	case "auto":
+		durationSec = nondet.Int("durationSec", 0, 1200)
+		noRestartsSec = nondet.Int("noRestartsSec", 0, 600)
+		canary = &datadoghqv1alpha1.ExtendedDaemonSetSpecStrategyCanary{
+			ValidationMode:     datadoghqv1alpha1.ExtendedDaemonSetSpecStrategyCanaryValidationModeAuto,
+			Duration:           &metav1.Duration{Duration: time.Duration(durationSec) * time.Second},
+			NoRestartsDuration: &metav1.Duration{Duration: time.Duration(noRestartsSec) * time.Second},
+		}
+	case "manual":
+		canary = &datadoghqv1alpha1.ExtendedDaemonSetSpecStrategyCanary{ValidationMode: datadoghqv1alpha1.ExtendedDaemonSetSpecStrategyCanaryValidationModeManual}
+	}
+	ds := zzEDS("ns", "foo", "B", canary)
+	c := fakeapi.New()
+	rsA := zzRS(ds, "A", "foo-a", nondet.Base().Add(-24*time.Hour))
+	rsA.Status.Desired, rsA.Status.Current, rsA.Status.Ready, rsA.Status.Available = 2, 2, 2, 2
+	ageSec := nondet.Int("canaryAgeSec", 0, 1300)
+	rsB := zzRS(ds, "B", "foo-b", nondet.Base().Add(-time.Duration(ageSec)*time.Second))
+	restartAgo := -1
+	if nondet.Bool("restarted") {
+		restartAgo = nondet.Int("lastRestartAgoSec", 0, 700)
+		zzSetCond(rsB, datadoghqv1alpha1.ConditionTypePodRestarting, true, nondet.Base().Add(-time.Duration(restartAgo)*time.Second))
+	}
+	condPaused := nondet.Bool("rsB.pausedCond")
+	if condPaused {
+		zzSetCond(rsB, datadoghqv1alpha1.ConditionTypeCanaryPaused, true, nondet.Base().Add(-time.Minute))
+	}
+	condFailed := nondet.Bool("rsB.failedCond")
+	if condFailed {
+		zzSetCond(rsB, datadoghqv1alpha1.ConditionTypeCanaryFailed, true, nondet.Base().Add(-time.Minute))
+	}
+	annPaused := nondet.Bool("ann.paused")
+	if annPaused {
+		ds.Annotations[datadoghqv1alpha1.ExtendedDaemonSetCanaryPausedAnnotationKey] = "true"
+	}
+	valid := false
+	if nondet.Bool("ann.valid.present") {
+		v := nondet.String("ann.valid", "foo-b", "foo-a")
+		ds.Annotations[datadoghqv1alpha1.ExtendedDaemonSetCanaryValidAnnotationKey] = v
+		valid = v == "foo-b"
+	}
+	activeExists := nondet.Bool("recordedActiveExists")
+	ds.Status.ActiveReplicaSet = "foo-a"
+	c.ERS = append(c.ERS, rsB)
+	if activeExists {
+		c.ERS = append(c.ERS, rsA)
+	}
+	c.Nodes = append(c.Nodes, &corev1.Node{ObjectMeta: metav1.ObjectMeta{Name: "node0"}}, &corev1.Node{ObjectMeta: metav1.ObjectMeta{Name: "node1"}})
+	c.EDS = append(c.EDS, ds)
+
+	res, err := zzReconcile(zzReconciler(c), "ns", "foo")
+	after := zzStoredEDS(c, "ns", "foo").Status.ActiveReplicaSet
+	promoted := after == "foo-b"
+	nondet.Assert("C05.r.active-is-candidate", after == "foo-a" || after == "foo-b")
+
+	noCanary := mode == "none"
+	auto := mode == "auto"
+	paused := annPaused || condPaused
+	failed := condFailed
+	// the reconcile reads the clock within one second after the base instant: an age of d seconds
+	// has "elapsed" when ageSec >= d (boundary accepted either way, so strict and non-strict agree here)
+	elapsed := auto && ageSec >= durationSec
+	quiet := !(auto && restartAgo >= 0) || restartAgo >= noRestartsSec
+	rule := noCanary || valid || (auto && elapsed && quiet && !paused && !failed)
+	nondet.Fact("failed", failed)
+	nondet.Fact("paused", paused)
+	nondet.Fact("valid", valid)
+	nondet.Fact("ended", elapsed)
+	if activeExists {
+		// "switches ... only if" the rule allows it
+		nondet.Assert("C05.r.rule", !promoted || rule)
+		if mode == "manual" {
+			nondet.Assert("C05.r.manual", !promoted || valid)
+		}
+		// wake-up: while only time is missing the reconcile asks to be called again in time
+		if auto && !promoted && !paused && !failed && !valid && err == nil {
+			remaining := durationSec - ageSec
+			if restartAgo >= 0 && noRestartsSec-restartAgo > remaining {
+				remaining = noRestartsSec - restartAgo
+			}
+			if remaining > 0 {
+				nondet.Assert("C05.r.wakeup", res.RequeueAfter > 0 && res.RequeueAfter <= time.Duration(remaining)*time.Second)
+			}
+		}
+	} else {
+		// "if the recorded active replica set no longer exists the matching one is adopted directly"
+		nondet.Assert("C05.r.adopt", promoted)
+	}
+	nondet.Observe("active", after)
+	nondet.Reach("C05.r.promoted-by-time", activeExists && promoted && !valid && auto)
+	nondet.Reach("C05.r.waiting", activeExists && !promoted && auto && !paused && !failed && !valid)
+	nondet.Reach("C05.r.failed-not-promoted", activeExists && !promoted && failed && elapsed)
+	nondet.Reach("C05.r.adopted", !activeExists && promoted)
 }
